@@ -38,6 +38,7 @@ func init() {
 	vfRegister("VerifC56_dict", VerifC56_dict)
 	vfRegister("VerifC56_inner", VerifC56_inner)
 	vfRegister("VerifC56_param", VerifC56_param)
+	vfRegister("VerifC56_params", VerifC56_params)
 	vfRegister("VerifC56_prim", VerifC56_prim)
 	vfRegister("VerifC56_long", VerifC56_long)
 	vfRegister("VerifC56_display", VerifC56_display)
@@ -734,6 +735,10 @@ func VerifC56_inner() {
 func VerifC56_param() {
 	full, long := c56bounds()
 	s := c56input(full, long+1, false)
+	c56paramCheck(s)
+}
+
+func c56paramCheck(s string) {
 	var got []c56pair
 	ok := ParseParameter(s, func(k, v string) { got = append(got, c56pair{k, v}) })
 	vfObserveBool("ok", ok)
@@ -757,6 +762,34 @@ func VerifC56_param() {
 		vfReach("rejected")
 	}
 	vfReach("end")
+}
+
+// VerifC56_params: parameter LISTS, which the byte-bounded harnesses above are too short for: 2..3 parameters
+// ";" key ["=" value], key = 1 symbolic byte, value = 1 symbolic byte (thorough: 1..2), every combination of
+// with/without value (so a valueless parameter after a valued one, repeated keys, ...). Bytes over the reduced
+// alphabet of c56byte. Same oracle as VerifC56_param (members, values incl. the default Boolean true, order).
+func VerifC56_params() {
+	n := vfLen("nparams", 2, 3)
+	b := []byte{}
+	for i := 0; i < n; i++ {
+		b = append(b, ';')
+		k := vfU8("key")
+		vfAssume(c56byte(k))
+		b = append(b, k)
+		if vfChoice("hasval", 2) == 1 {
+			b = append(b, '=')
+			nv := 1
+			if vfTier() > 0 {
+				nv = vfLen("nval", 1, 2)
+			}
+			for j := 0; j < nv; j++ {
+				v := vfU8("val")
+				vfAssume(c56byte(v))
+				b = append(b, v)
+			}
+		}
+	}
+	c56paramCheck(string(b))
 }
 
 // ---------------------------------------------------------------------------------------------------------------
